@@ -206,4 +206,11 @@ GiantFails(o) ==
            /\ o.whole[1].over = 1 /\ o.whole[1].n >= o.cap
            /\ \A i \in 1..Len(o.whole[1].cs) : o.whole[1].cs[i] = 0
         THEN {} ELSE {"giant_whole_stream"})
+\* "@deep" run (dev-profile build, very long images that are empty or one pixel wide in the other direction):
+\* the colour stream of the whole image has w x h colours, that of its lower half (sub_image at (0, h / 2), clipped
+\* by the image) has w x (h - h / 2), and drawing needs no stack in proportion to the number of rows / columns
+DeepFails(e) ==
+       (IF e.n[1] = e.w * e.h THEN {} ELSE {"fill_contiguous_stream_length"})
+  \cup (IF e.n[2] = e.w * (e.h - e.h \div 2) THEN {} ELSE {"sub_image_stream_length"})
+  \cup (IF e.stack <= 262144 THEN {} ELSE {"stack_use_grows_with_image_size"})
 =============================================================================
